@@ -202,10 +202,12 @@ func (p *parser) parse() (err error) {
 
 func (p *parser) pegText(node *node32) string {
 	for n := node; n != nil; n = n.next {
-		if s := p.pegText(n.up); s != "" {
-			return s
-		}
 		if n.pegRule != rulePegText {
+			// only look inside nodes that are not a captured text themselves: the text of a double
+			// constant contains the captured text of its exponent
+			if s := p.pegText(n.up); s != "" {
+				return s
+			}
 			continue
 		}
 
@@ -485,7 +487,8 @@ func (p *parser) parseConstValue(node *node32) (cv *ConstValue, err error) {
 	// DoubleConstant / IntConstant / Literal / Identifier / ConstList / ConstMap
 	switch node.pegRule {
 	case ruleDoubleConstant:
-		double, _ := strconv.ParseFloat(p.pegText(node), 64)
+		// the captured text ends with the blanks that follow the exponent (IntConstant <- Skip <...> Indent*)
+		double, _ := strconv.ParseFloat(strings.TrimRight(p.pegText(node), " \t\v"), 64)
 		return &ConstValue{Type: ConstType_ConstDouble, TypedValue: &ConstTypedValue{Double: &double}}, nil
 	case ruleIntConstant:
 		i, err := strconv.ParseInt(p.pegText(node), 0, 64)
